@@ -124,7 +124,7 @@ def run(ctx):
     if h is not None:
         Eh = dict(E, exc=h.name)
         ifs = [n for n in h.body if isinstance(n, ast.If)]
-        ok = len(ifs) == 1 and M.pat("not $exc.resumable").matches(ifs[0].test, Eh) is not None and M.has(ifs[0].body, "os.unlink($path)", Eh) and M.has(ifs[0].orelse, "$command = self.resume_command", Eh) and not _mentions_unlink(ifs[0].orelse)
+        ok = len(ifs) == 1 and (ar := M.arms(ifs[0], "$exc.resumable", Eh)) is not None and M.has(ar[1], "os.unlink($path)", Eh) and M.has(ar[0], "$command = self.resume_command", Eh) and not _mentions_unlink(ar[0])
         ctx.check("R3", fe, ok, "partial-kept-for-resume", "a resumable partial file is kept and the resume command is used; a non-resumable one is removed",
                   "the FetchFailed handler no longer keeps resumable partial files for the resume command", node=h)
     h = hs.get("errors.MissingDistfile")
